@@ -51,7 +51,7 @@ def same_cores(A, B):
         b.tobytes() for a, b in zip(A, B))
 
 
-def judge_info(ctx, run, I_vld, y_vld):
+def judge_info(ctx, run, I_vld, y_vld, static_only=False):
     import teneva
     Y, info = run.result, run.info
     er = float(teneva.erank(Y))
@@ -72,7 +72,9 @@ def judge_info(ctx, run, I_vld, y_vld):
             1e-9 * abs(ev) + slack
     ctx.check('info-e_vld', bool(ok),
         f'info["e_vld"] = {info.get("e_vld")} but the returned tensor has '
-        f'validation error {ev}')
+        f'validation error {ev}', stop=info.get('stop'))
+    if static_only:
+        return
     # info['e'] = relative distance of the result to the tensor at the end of
     # the previous sweep.  That tensor is taken from the callback log (copy of
     # Y handed to cb one sweep earlier); before the first completed sweep it
@@ -262,6 +264,9 @@ def run_case(case, ctx):
                         len(run.batches) != k - 1:
                     ctx.event('interruption-not-at-planned-request')
                     continue
+                # an interrupted run reports the rank and the validation
+                # error of what it returns, in either half-sweep
+                judge_info(ctx, run, I_vld, y_vld, static_only=True)
                 err = float(np.abs(np.asarray(ref.dense_ld(run.result),
                     dtype=float) - T).max())
                 ctx.check('exact-when-interrupted',
@@ -309,6 +314,11 @@ def run_case(case, ctx):
             ctx.check('cache-counters', runi.info['m'] == runi.evaluated,
                 f'interrupted cached run: info["m"] = {runi.info["m"]}, '
                 f'{runi.evaluated} evaluated')
+            if ref.wellformed(runi.result, n) is None:
+                judge_info(ctx, runi, I_vld, y_vld, static_only=True)
+                if runi.info.get('stop') in ('m', 'func') and \
+                        y_vld is not None:
+                    ctx.event('interrupted-run-info-judged-with-validation')
             # continuation with the same dictionary
             cont = crossh.execute(crossh.Run(T), Y0, cache=cch, **kw)
             if cont.error is not None:
